@@ -26,20 +26,27 @@ def shards(tier):
     return [{'examples': per, 'i': i} for i in range(n)]
 
 
+def _as_float(x):
+    """Correctly rounded Python float of a REAL of the IR (exact rational arithmetic; exponents are capped by the generator)."""
+    from fractions import Fraction
+    if x == 0:
+        return 0.0
+    if x in ('inf', '-inf'):
+        return float(x)
+    m, b, e = x
+    if abs(e) > 1100:
+        return float('inf') if (e > 0) == (m > 0) else (float('-inf') if e > 0 else 0.0)
+    try:
+        return float(Fraction(m) * Fraction(b) ** e)
+    except OverflowError:
+        return float('inf') if m > 0 else float('-inf')
+
+
 def floatify(T, v):
-    """Canonical form in which REALs are Python floats."""
+    """Canonical form in which REALs are Python floats (as ('float', repr) leaves)."""
     def fn(t, x):
         if t['k'] == 'REAL':
-            if x == 0:
-                return ('float', repr(0.0))
-            if x in ('inf', '-inf'):
-                return ('float', x)
-            m, b, e = x
-            try:
-                f = float(m) * float(b) ** e if abs(e) < 1000 else float('%d' % m) * (b ** e if e > 0 else 1.0 / b ** -e)
-                return ('float', '%.12e' % f)      # "up to rounding": 13 significant digits
-            except OverflowError:
-                return ('float', 'overflow')
+            return ('float', repr(_as_float(x)))
         return x
     T2 = fz._map_type(T, lambda t: None)
     for t in fz.type_nodes(T2):
@@ -47,7 +54,21 @@ def floatify(T, v):
             for c in t['comps']:
                 if c['p'] == 'def':
                     c['d'] = fn(c['t'], c['d'])
-    return ir.jdump(ir.canon(T2, fz.map_values(T2, v, fn)))
+    return ir.canon(T2, fz.map_values(T2, v, fn))
+
+
+def close(a, b):
+    """Equality of two floatify() forms in which float leaves agree "up to rounding" (relative 1e-11: the float -> decimal
+    conversion of Real.prettyIn multiplies by ten repeatedly)."""
+    import math
+    if isinstance(a, (tuple, list)) and isinstance(b, (tuple, list)):
+        if len(a) == 2 and len(b) == 2 and a[0] == 'float' and b[0] == 'float':
+            x, y = float(a[1]), float(b[1])
+            return x == y or math.isclose(x, y, rel_tol=1e-11, abs_tol=0.0)
+        return len(a) == len(b) and all(close(x, y) for x, y in zip(a, b))
+    if isinstance(a, dict) and isinstance(b, dict):
+        return a.keys() == b.keys() and all(close(a[k], b[k]) for k in a)
+    return type(a) == type(b) and a == b
 
 
 def run_case(case):
@@ -80,7 +101,7 @@ def run_case(case):
     except absval.Shape as e:
         F('native-roundtrip', 'shape', '%s | py=%s' % (e, absval.short(py, 160)))
         got = None
-    if got is not None and floatify(T, got) != floatify(T, v):
+    if got is not None and not close(floatify(T, got), floatify(T, v)):
         F('native-roundtrip', 'value', 'native round trip gives %s, expected %s | py=%s' % (absval.short(got, 120), absval.short(v, 120), absval.short(py, 120)),
           obs={'got': got})
     for codec in ('BER', 'CER', 'DER'):
